@@ -49,12 +49,15 @@ class Exec {
   void after_event();
   void resolve_choices();
   void check_limits_whitebox();
+  std::string known_validator_gap(const std::string &bytes, const std::string &reason);
+  bool tainted = false;            // a listed finding made the model lose track: no further comparisons in this run
   bw::BusLimits lim_cfg;
   void sync_names();
   std::set<std::string> ever_names;
   std::vector<int> actual_queue(const std::string &name);
   void check_point(bool final);
   void compare_client(int ci);
+  void check_hostile(int ci);
   bool take_floating(int ci, const wire::Msg &o);
 };
 
